@@ -21,17 +21,20 @@ except BaseException as e:  # noqa
 from enum import Enum
 from stepcode import SCLBase, ConstructedDataTypes, AggregationDataTypes, SimpleDataTypes
 runtime_names = set()
-for m in (SCLBase, ConstructedDataTypes, AggregationDataTypes, SimpleDataTypes):
-    runtime_names.update(dir(m))
+runtime_objs = {}
 import stepcode.Builtin
 import stepcode.Rules
 import stepcode.TypeChecker
-runtime_names.update(dir(stepcode.Builtin))
-runtime_names.update(dir(stepcode.Rules))
+for m in (SCLBase, ConstructedDataTypes, AggregationDataTypes, SimpleDataTypes, stepcode.Builtin, stepcode.Rules):
+    runtime_names.update(dir(m))
+    for n_ in dir(m):
+        runtime_objs.setdefault(n_, []).append(getattr(m, n_, None))
 runtime_names.update(["check_type", "sys", "schema_name", "schema_scope"])
 simple = {getattr(SimpleDataTypes, n): n for n in ("INTEGER", "REAL", "STRING", "BOOLEAN", "LOGICAL", "NUMBER", "BINARY") if hasattr(SimpleDataTypes, n)}
 for name, obj in vars(mod).items():
-    if name.startswith("_") or name in runtime_names:
+    # a name of the runtime package is skipped only when it still is the runtime's object (an entity may be called
+    # like a runtime helper, e.g. raise -> class raise_)
+    if name.startswith("_") or (name in runtime_names and (name not in runtime_objs or any(obj is o for o in runtime_objs[name]))):
         continue
     if inspect.isclass(obj) and issubclass(obj, SCLBase.BaseEntityClass):
         try:
